@@ -29,11 +29,11 @@ class Knobs:
     # valid-but-unusual ingredients that are known deviations (see DESIGN 9);
     # off in the main stream, switched on one by one in the edge stream
     tabstops_in_ppr: float = 0.0  # D12
-    toggle_off_values: float = 0.0  # D8
-    valign_baseline: float = 0.0  # D9
+    toggle_off_values: float = 0.25  # D8 (fixed)
+    valign_baseline: float = 0.3  # D9 (fixed)
     sym_without_char: float = 0.08  # D16
-    alt_text_markup: float = 0.0  # D17
-    math_markup: float = 0.0  # D22
+    alt_text_markup: float = 0.3  # D17 (fixed)
+    math_markup: float = 0.3  # D22 (fixed)
     link_mixed_format: float = 0.15  # D7
     link_dangling: float = 0.08  # D6
     nested_tables: float = 0.0  # D10
@@ -42,7 +42,7 @@ class Knobs:
     grid_before: float = 0.05  # D2
     checkbox_onoff: float = 0.3  # D4
     ddlist_empty: float = 0.1  # D3
-    ddlist_markup: float = 0.0  # drop-down entries with & < > (not escaped in html)
+    ddlist_markup: float = 0.3  # D26 (fixed): drop-down entries with & < >
     no_r_namespace: float = 0.08  # D1
     start_zero: float = 0.1  # D13
     markers_in_link: float = 0.08  # D23
@@ -176,7 +176,11 @@ class Gen:
             props.append(self.E("w:vertAlign", {"w:val": v}))
             self.feat("fmt_vertAlign")
         if self.p(0.12):
-            props.append(self.E("w:highlight", {"w:val": self.r.choice(["yellow", "green"])}))
+            hv = self.r.choice(["yellow", "green"])
+            if self.p(self.k.toggle_off_values):
+                self.feat("toggle_off")
+                hv = "none"
+            props.append(self.E("w:highlight", {"w:val": hv}))
             self.feat("fmt_highlight")
         if self.p(0.12):
             props.append(self.E("w:sz", {"w:val": self.r.choice(["24", "32", "9"])}))
